@@ -477,6 +477,14 @@ VARS_QUERY = ["VA", "VB", "VC", "VD", "VE", "VF", "VG", "TASK", "TASK_DIR", "ROO
               "ALIAS", "MATCH", "CHECKSUM", "TIMESTAMP"]
 
 
+def _c11_fs_cache(m):
+    """C11-dynamic-cache-ignores-files, one mechanism only: the monitor line `vars.fsmon` of the file-system stream (a call must read
+    what it would read alone in the world as it is when it starts) and what it printed instead is exactly what the cache entry of
+    its (directory, command) holds from an earlier compilation (tag set by the harness, which tracks the world and the first reads)."""
+    return (m.get("domain") == "vars" and m.get("case_line", "").startswith("vars.fsmon ")
+            and m["impl"].endswith(" stale-cache"))
+
+
 def _c10_cli_specials(m):
     """C10-cli-specials-defined-after-globals, one mechanism only: the monitor line of the CLI stream (`vars.climon`) for a declared
     global / global env entry that refers to CLI_* names only, and the value printed is exactly the entry's text with those references
@@ -497,6 +505,7 @@ FINDING_PREDICATES = {
     "C10-cli-specials-defined-after-globals": _c10_cli_specials,
     "C10-fingerprint-vars-override-user-definition": _c10_post_layer,
     "C11-dynamic-cache-ignores-env": _c11_env_cache,
+    "C11-dynamic-cache-ignores-files": _c11_fs_cache,
     "C19-cli-values-are-templated": _c19_values_templated,
     "C19-no-value-text-deleted": _c19_no_value_deleted,
 }
